@@ -138,3 +138,50 @@ func H_C19_xmlnode_interleaved(s any) {
 	vpAssert(dst.root.leaves["top"].String() == "t", "sibling leaf")
 	vpCover("reached")
 }
+
+// two modules contribute to one tree: a grouping imported from gmod, and an augment of the using module inside
+// the grouping's container (namespaces alternate urn:m -> urn:g -> urn:m): every node comes back
+func S_c19x() any {
+	m, err := parser.LoadModule(c15xOpener, "m")
+	if err != nil {
+		panic(err)
+	}
+	return m
+}
+
+//vp:setup S_c19x
+func H_C19_xml_tree_two_modules(s any) {
+	m := s.(*meta.Module)
+	src := newMemStore()
+	src.quiet = true
+	src.root.leaves["top"] = val.String("t")
+	c := src.root.ensureKid(src, "c")
+	c.leaves["own"] = val.String("o")
+	if vpBool() {
+		gc := c.ensureKid(src, "gc")
+		if vpBool() {
+			gc.leaves["gx"] = val.String("x")
+		}
+		if vpBool() {
+			gc.leaves["back"] = val.String("bk")
+		}
+	}
+	if vpBool() {
+		c.leaves["gl"] = val.StringList([]string{"a", "b"})
+	}
+	if vpBool() {
+		row := c.ensureList(src, "ml").addRow(src, val.String("k"))
+		row.leaves["k"] = val.String("k")
+	}
+	w := &XMLWtr2{ns: "urn:m"}
+	w.XMLName.Local = "m"
+	w.XMLName.Space = "urn:m"
+	vpAssert(node.NewBrowser(m, src.node()).Root().UpsertInto(w) == nil, "export into the XML writer succeeds")
+	rdr := c19Copy(w, "")
+	dst := newMemStore()
+	dst.quiet = true
+	err := node.NewBrowser(m, dst.node()).Root().UpsertFrom(rdr)
+	vpAssert(err == nil, "reading the element tree back succeeds")
+	vpAssert(treeEqU(dst.root, src.root), "element names and namespaces select the right schema nodes, nodes of other modules included")
+	vpCover("reached")
+}
